@@ -133,4 +133,9 @@ def run(res, tier):
         res.rule("SIGN-3", "the Galois-element helpers of poulpy_hal::layouts::module use the ring degree only as 2 * n() / cyclotomic_order()")
         n3 = sign3(p, res)
         res.floor("SIGN-3", "Galois-element helpers", n3, 2)
+        from .c11 import wr9
+        from .c07 import in_c07
+        res.rule("WR-9", "in-place limb-wise loops (`res[j + r] op= a[j + s]`) of the small and big vector arithmetic run over the whole overlap of the two limb windows")
+        n9w = wr9(p, res, restrict=lambda f: not in_c07(f))
+        res.floor("WR-9", "in-place limb-wise loops", n9w, 9)
         res.fn_count += n_ow + n2
